@@ -587,6 +587,19 @@ def _explains(clause, base):
 
 
 def run(tier, seed, hint):
+    import shutil
+    import tempfile
+
+    parent = tempfile.mkdtemp(prefix="mdvc-c01run-", dir="/dev/shm" if os.path.isdir("/dev/shm") else None)
+    os.environ["MDVC_SCRATCH_PARENT"] = parent  # inherited by the forked workers: their per-case scratch directories live (and die) here
+    try:
+        return _run(tier, seed, hint)
+    finally:
+        os.environ.pop("MDVC_SCRATCH_PARENT", None)
+        shutil.rmtree(parent, ignore_errors=True)
+
+
+def _run(tier, seed, hint):
     checks = _mk_checks(tier)
     jobs = _grid(tier, seed) + _option_jobs(tier, seed)
     if tier != "quick":
